@@ -745,7 +745,9 @@ func (f *famBuilders) collect(cfgs []Cfg, withNone bool) ([]*episode, error) {
 				}
 			}
 			base := strings.TrimSuffix(rel, ".apparmor.d")
-			if sp, ok := srcIdx[base]; ok {
+			// files the full-policy prepare step edits have no source text to be compared with in a full build
+			fspEdited := c.Full && (rel == "abstractions/gstreamer" || rel == "tunables/multiarch.d/profiles")
+			if sp, ok := srcIdx[base]; ok && !fspEdited {
 				if b, err := os.ReadFile(sp); err == nil {
 					ep.Orig = cn.items(abstractText(string(b)))
 					// the orig text is pre-userspace: its header 'rest' differs legitimately; only flags are compared
